@@ -424,6 +424,48 @@ let run_wg () =
      print_endline (cert ^ "|entries=" ^ String.concat ";" (List.map show_entry es) ^ "|status=" ^ show_res (fun () -> "") st)
    | r -> print_endline (cert ^ "|entries=|status=" ^ show_res (fun _ -> "") r))
 
+(* stream X: XML schema tree + the numbers drawn at parse time -> graph, entries *)
+let rec read_xml () =
+  let tag = next_str () in
+  let na = next () in
+  let attrs = List.init na (fun _ -> let k = next_str () in let v = next_str () in (k, v)) in
+  let nk = next () in
+  let kids = List.init nk (fun _ -> read_xml ()) in
+  XEl (tag, attrs, kids)
+let show_xpay (st : xbst) n =
+  match List.nth_opt st.x_pay n with
+  | Some XPStart -> "S"
+  | Some (XPFetch None) -> "F-"
+  | Some (XPFetch (Some ns)) -> "F" ^ tok_of_str ns
+  | Some (XPAttr a) -> "A" ^ tok_of_str a
+  | Some (XPElem t) -> "E" ^ tok_of_str t
+  | Some (XPSet v) -> "=" ^ tok_of_str v
+  | _ -> "-"
+let rec show_doc (d : xdoc) =
+  match d with XD (t, a, tx, ks) ->
+    String.concat " " ([tok_of_str t; string_of_int (List.length a)]
+      @ List.concat_map (fun (k, v) -> [tok_of_str k; tok_of_str v]) a
+      @ [(match tx with Some v -> "T" ^ tok_of_str v | None -> "-"); string_of_int (List.length ks)]
+      @ List.map show_doc ks)
+let run_x () =
+  let v = read_variant () in
+  let fuel = next_nat () in
+  let nd = next () in
+  let draws = List.init nd (fun _ -> z_of_int (next ())) in
+  let schema = read_xml () in
+  match parse_xsd fuel schema draws with
+  | Ok (st, root) ->
+    let g = st.x_graph in
+    let b = Buffer.create 1024 in
+    Buffer.add_string b ("graph=" ^ dump_canon g (show_xpay st) fuel root);
+    (match generate_paths v fuel g root aempty aempty with
+     | Ok (_, (es, stt)) ->
+       Buffer.add_string b ("|entries=" ^ canon_entries g fuel root es ^ "|status=" ^ show_res (fun () -> "") stt);
+       Buffer.add_string b ("|samples=" ^ String.concat ";" (List.map (fun e -> show_res show_doc (xsample fuel st root e.epath)) es))
+     | r -> Buffer.add_string b ("|fail=" ^ show_res (fun _ -> "") r));
+    print_endline (Buffer.contents b)
+  | r -> print_endline ("parse=" ^ show_res (fun _ -> "") r)
+
 (* stream O: SampleCache histories *)
 let ecls_of_code = function
   | 0 -> EResolveReference | 1 -> EInternal | 2 -> ENormalization | 3 -> EJsonPointer
@@ -508,6 +550,7 @@ let () =
            | "N" -> run_n ()
            | "W" -> run_w ()
            | "WG" -> run_wg ()
+           | "X" -> run_x ()
            | "J" -> run_j ()
            | "F" -> run_f ()
            | "O" -> run_o ()
